@@ -135,7 +135,14 @@ def history(rnd, hist_id, length):
         elif r < 0.74:
             ops.append({'op': 'oss.op', 'k': 'save', 'p': anyp})
         elif r < 0.77:
-            ops.append({'op': 'oss.op', 'k': 'close', 'p': anyp})
+            p_ = pick('base') if directed and rnd.random() < 0.6 else anyp
+            ops.append({'op': 'oss.op', 'k': 'close', 'p': p_, 'save': rnd.random() < 0.6})
+            if rnd.random() < 0.5:
+                # reopened later and the change reported by the source manager
+                ops.append({'op': 'oss.op', 'k': 'open', 'p': p_})
+                ops.append({'op': 'oss.op', 'k': 'announce', 'p': p_})
+        elif r < 0.79:
+            ops.append({'op': 'oss.op', 'k': 'announce', 'p': anyp})
         elif r < 0.81:
             ops.append({'op': 'oss.op', 'k': 'open', 'p': anyp})
         elif r < 0.87:
@@ -296,7 +303,7 @@ def judge(res, cs, cr):
                     parents_quiet = all(not before['picts'][str(x)]['is_operation'] or before['picts'][str(x)]['status'] == 'done' for x in p['parents'] if str(x) in before['picts'])
                     if old is not None and bp.get('translations') and p.get('translations') and parents_quiet and not bad:
                         bad += additions_check(res, old, p['data'], bp['translations'], p['translations'], pid)
-            if k in ('edit', 'save', 'close') and snap['announcements'] > before['announcements'] and executed:
+            if k in ('edit', 'save', 'close', 'announce') and snap['announcements'] > before['announcements'] and executed:
                 nontrivial = True
         # F2: an operation that reports done was built from the formal content its parents last announced
         for pid, p in snap['picts'].items():
